@@ -11,7 +11,10 @@ rmdir "$WT"
 git -C /repo worktree add -q --detach "$WT" HEAD || exit 2
 cleanup() { git -C /repo worktree remove --force "$WT" 2>/dev/null; rm -rf "$WT"; }
 trap cleanup EXIT
-if ! git -C "$WT" apply "$PATCH"; then echo "PATCH DOES NOT APPLY"; exit 2; fi
+case "$PATCH" in
+  *.gz) if ! zcat "$PATCH" | git -C "$WT" apply; then echo "PATCH DOES NOT APPLY"; exit 2; fi ;;
+  *)    if ! git -C "$WT" apply "$PATCH"; then echo "PATCH DOES NOT APPLY"; exit 2; fi ;;
+esac
 export GOFLAGS=-mod=mod GOPROXY=off
 if ! (cd "$WT" && go build ./ ./tree ./set && go vet ./tree ./set >/dev/null 2>&1); then echo "PATCHED TREE DOES NOT BUILD"; fi
 SUITE=$(cd "$WT" && go test -count=1 . ./set 2>&1 | tail -3 | tr '\n' ' ')
